@@ -297,6 +297,7 @@ type wgen struct {
 	noGeneralUnion bool
 	nullLeaves     bool // null as a field / item / map value type (read-side generators) // only nullable unions (the library has no writer for general unions)
 	withTime       bool // logical date/timestamp leaves and string leaves targeted at time.Time
+	zeroHeavy      bool // every second scalar leaf value is the zero value; most struct fields are omitempty
 }
 
 var primKinds = []string{"boolean", "int", "long", "float", "double", "bytes", "string"}
